@@ -96,6 +96,10 @@ struct Plan {
     later_truthful: bool,
     /// this element fails to parse
     fail_at: Option<usize>,
+    /// what the deserializer answers to `is_human_readable()` (serde's default is true; binary formats say false)
+    human: bool,
+    /// entry point: `Deserialize::deserialize_in_place` into an existing array instead of `Deserialize::deserialize`
+    in_place: bool,
 }
 
 struct ScriptDe<'a> {
@@ -179,6 +183,9 @@ impl<'de, 'a> Deserializer<'de> for ScriptDe<'a> {
         self.stats.borrow_mut().asked_len = Some(len);
         v.visit_seq(ScriptSeq { plan: self.plan, pos: 0, stats: self.stats })
     }
+    fn is_human_readable(&self) -> bool {
+        self.plan.human
+    }
     serde::forward_to_deserialize_any! {
         bool i8 i16 i32 i64 i128 u8 u16 u32 u64 u128 f32 f64 char str string bytes byte_buf option unit unit_struct newtype_struct seq
         tuple_struct map struct enum identifier ignored_any
@@ -189,7 +196,19 @@ fn scripted<N: ArrayLength>(plan: Plan) -> Result<CaseInfo, String> {
     let n = N::USIZE;
     PRODUCED.with(|p| p.borrow_mut().clear());
     let stats = RefCell::new(Stats::default());
-    let r: Result<GA<El, N>, ScriptErr> = GA::<El, N>::deserialize(ScriptDe { plan, stats: &stats });
+    let r: Result<GA<El, N>, ScriptErr> = if plan.in_place {
+        // into an existing array: its old elements are released exactly once whatever the outcome
+        let mut place: GA<El, N> = <GA<El, N> as generic_array::sequence::GenericSequence<El>>::generate(|_| El(Tr::new()));
+        match Deserialize::deserialize_in_place(ScriptDe { plan, stats: &stats }, &mut place) {
+            Ok(()) => Ok(place),
+            Err(e) => {
+                drop(place);
+                Err(e)
+            }
+        }
+    } else {
+        GA::<El, N>::deserialize(ScriptDe { plan, stats: &stats })
+    };
     let st = stats.borrow();
     if st.asked_len != Some(n) {
         return Err(format!("deserialize asked the format for {:?}, expected a tuple of exactly {n}", st.asked_len));
@@ -481,7 +500,7 @@ pub fn run_c05(ctx: &mut Ctx) {
                 let mut fails: Vec<Option<usize>> = vec![None];
                 fails.extend((0..c.min(n)).map(Some));
                 for fail_at in fails {
-                    let plan = Plan { n, c, up, later_truthful: false, fail_at };
+                    let plan = Plan { n, c, up, later_truthful: false, fail_at, human: true, in_place: false };
                     if n == 0 && c > 0 && matches!(up, Up::SaysN) {
                         continue;
                     }
@@ -519,14 +538,15 @@ pub fn run(ctx: &mut Ctx) {
                         fails.sort();
                         fails.dedup();
                     }
-                    for fail_at in fails {
-                        let plan = Plan { n, c, up, later_truthful, fail_at };
+                    for (fail_at, (human, in_place)) in fails.iter().flat_map(|f| [(true, false), (false, false), (true, true), (false, true)].into_iter().map(move |m| (*f, m))) {
+                        let plan = Plan { n, c, up, later_truthful, fail_at, human, in_place };
                         // outside the claim (documented exclusion): a source that reports 'nothing left' (Some(0)) while
                         // still holding elements - only reachable here for N = 0 with an up-front hint of 0
                         if n == 0 && c > 0 && matches!(up, Up::SaysN | Up::TooSmall) {
                             continue;
                         }
-                        let d = format!("C17;scripted;N={n};c={c};up={up:?};later={};fail={}", if later_truthful { "truthful" } else { "none" }, fail_at.map_or("-".to_string(), |k| k.to_string()));
+                        let d = format!("C17;scripted;N={n};c={c};up={up:?};later={};fail={};{}{}", if later_truthful { "truthful" } else { "none" }, fail_at.map_or("-".to_string(), |k| k.to_string()),
+                            if human { "human" } else { "binary" }, if in_place { ";in-place" } else { "" });
                         ctx.case(&d, || scripted::<N>(plan));
                     }
                 }
